@@ -500,3 +500,6 @@ def run(ctx, res):
     res.extra['fish_zsh_pwsh_data_sections_byte_identical'] = data_ties
     res.extra['grammars'] = len(texts)
     res.extra['timing'] = timing
+    # capstone: Model/Compiler.v compile_bash on the SOURCE TEXT == the script of the real binary, byte for byte
+    from . import e2e
+    e2e.tie(ctx, res, e2e.corpus(ctx, texts))
